@@ -31,7 +31,8 @@ sys.path.insert(0, os.path.join(os.path.dirname(os.path.dirname(os.path.abspath(
 import c12_nasfloat  # noqa: E402
 
 ID = "C12"
-LEAN_MODULES = ["PyYetiVerif.Props.C12", "PyYetiVerif.Audit.C12"]
+LEAN_MODULES = ["PyYetiVerif.Props.C12", "PyYetiVerif.Props.C12Multi", "PyYetiVerif.Props.C12Acc",
+                "PyYetiVerif.Props.C12Best", "PyYetiVerif.Audit.C12"]
 AUDIT_FILE = "PyYetiVerif/Audit/C12.lean"
 THEOREMS = [
     "PyYetiVerif.C12." + n
@@ -40,7 +41,13 @@ THEOREMS = [
         "sscanf_parses_field sscanf_parses_recognised fixed_branch_accuracy fixed_precision_maximal "
         "sci_consts_ok sci_width_accuracy sci_width small_branch_pos small_branch_neg last_branches tables_format_ok format_float_total "
         "carry_guard_sound int_field_roundtrip blank_field_roundtrip line_roundtrip "
-        "card_line_roundtrip_partial str_field_roundtrip card_fields_ok card_roundtrip_small card_roundtrip_large card_roundtrip_comma card_fixed_comma_agree"
+        "card_line_roundtrip_partial str_field_roundtrip card_fields_ok card_roundtrip_small card_roundtrip_large card_roundtrip_comma card_fixed_comma_agree "
+        "reader_options_default rdcards_general_is_rdcards rdcards_multi rdcards_multi_files written_cards_are_blocks "
+        "rdcards_assembled array_shape dict_keys_and_last expandtabs_cells tab_line_reads_as_fixed fsearch_first_line "
+        "wtcard_type_dispatch "
+        "format_float_accuracy format_bound_pieces mixed_branch_picks mixed_branch_reads_as_sci "
+        "fixed_branch_best_precision last_branches_best_precision sci_best_precision sci_slack_attained "
+        "unnormalised_mantissa_is_closer mixed_branch_picks_neg kept_comments_complete rdcards_foreign_block tables_best_ok format_float_best_precision"
     ).split()
 ]
 TRUSTED = [
@@ -49,9 +56,15 @@ TRUSTED = [
     "theorems use are also *proved*: eParts_spec for '%.*e', rheDiv_err for '%.*f', toBits_mant for float() on "
     "a mantissa)",
     "translator harness/translate/c12_nasfloat.py (ast only; cross-checked by the exact string correspondence)",
-    "correspondence harness harness/props/c12.py (exact comparison of fields, card text and rdcards lists; "
-    "the harness regex _FLD_RE as an independent reading of the emitted-field grammar)",
-    "rdcards is modelled for return_var='list', no INCLUDE following, no kept comments, no tabs",
+    "correspondence harness harness/props/c12.py (exact comparison of fields, card text, rdcards results of every "
+    "return_var, expandtabs, fsearch; the harness regex _FLD_RE as an independent reading of the emitted-field "
+    "grammar)",
+    "rdcards is modelled without INCLUDE following (the harness reads from StringIO, where the code switches it "
+    "off); regex=True is modelled with the matcher as a parameter: the harness supplies the verdicts of Python's "
+    "re.compile(name, re.IGNORECASE).match on each expanded line",
+    "NumPy's conversions in rdcards(return_var='array'|'dict'): np.array(list of int/float).astype(float|int) as "
+    "convRow (ints -> nearest double, one float makes the row float64, C truncation for dtype=int) - measured by the "
+    "`rdcards-options` stream, not proved about NumPy",
     "the free-field writer `commaText` of the card theorems is a specification (pyyeti has no comma writer); the "
     "harness writes the same form (_comma_text) and the reader is compared on it exactly",
 ]
@@ -62,9 +75,22 @@ RULE = (
     "a case is one double compared on format_float8/16 and format_double16 (stream format) and on "
     "_format_scientific8/16 (stream sci), exact strings; every distinct emitted field is split by the Lean "
     "recogniser fieldOf? and by the harness regex and the decimal it denotes is rounded and compared with "
-    "nas_sscanf (stream grammar); non-trivial = non-zero; distinct by bit pattern.  cards: seeded random cards "
-    "of 0..60 fields over blank/str/int/float with blank runs and trailing blanks, three writers, single- and "
-    "multi-card files, comma forms incl. first lines of every length 72..80 and beyond; distinct by the card text"
+    "nas_sscanf (stream grammar); non-trivial = non-zero; distinct by bit pattern.  dtype axis (stream "
+    "format-dtype): the same formatters on numpy.float32 / int / numpy.int32 / int64 arguments against the model on "
+    "float(argument); float32 arguments equal to the float32 rounding of a branch literal are skipped and counted "
+    "(NumPy 2 compares a float32 scalar with a Python literal in float32, so the branch can differ there).  cards: "
+    "seeded random cards of 0..60 fields over blank/str/int/float with blank runs and trailing blanks, three "
+    "writers, single- and multi-card files, comma forms incl. first lines of every length 72..80 and beyond; "
+    "fields given as numpy.str_/int32/int64/uint32/uint64/float64/bool, unsupported types (None, float16, int16, "
+    "bool_, bytes, 0-d arrays, lists, Fraction, complex: TypeError), strings longer than the field (stream "
+    "cards-dtype); distinct by the card text.  files (stream rdcards-options): 1..6 cards per file drawn from the "
+    "three writers, the comma form and a tab-separated form, half of them renamed to a common name / common prefix, "
+    "with comment lines, blank lines, BEGIN BULK / ENDDATA, foreign cards, stray continuation-like lines, quoted "
+    "strings containing $, inline comments; read by a full name, a prefix, another case, a missing name or a regular "
+    "expression with return_var list/array/dict, dtype float/int, keep_name, keep_comments, blank default/None/"
+    "number/string, no_data_return; a case is one (file, options) pair compared on the canonical text of the result "
+    "or the exception kind.  str.expandtabs on random strings with tabs, \\n, \\r (stream tabs); fsearch on random "
+    "files (stream fsearch)"
 )
 ASSUMPTIONS = [
     "string fields are Nastran names (letter first, alphanumeric, at most the field width) that nas_sscanf does "
@@ -72,34 +98,61 @@ ASSUMPTIONS = [
     "integer fields fit the field width",
     "accuracy is claimed for 1e-300 <= |x| <= 1e300 (beyond, rounding to the field's digits can overflow to inf); "
     "the Lean theorems cover all fractions with 1e-999 <= |x| < 1e999 (exponents of at most three digits)",
+    "rdcards(return_var='array'|'dict') on a card without any field raises IndexError (`key = val[0]`): the model "
+    "says so, the oracle treats such cards as outside the quantifier (cards of 1..60 fields)",
+    "dtype is float or int (other dtypes are not modelled); with dtype=int the floats of the file are below 1e15 "
+    "(the C cast of a larger double is undefined)",
 ]
 PARTIAL = (
     "proved at full strength (all fractions that are zero or have 1e-999 <= |x| < 1e999, so every finite double): "
-    "sscanf_parses_field / sscanf_parses_recognised (grammar of emitted fields, d->e and sign-as-exponent "
-    "rewriting); format_float_total (format_float8/16 as a whole through the if-chain dispatch: exactly W "
-    "characters, a field of the grammar, read back as a real; side conditions tables_format_ok by decide on the "
-    "regenerated tables); per branch the exact text and the accuracy: fixed_branch_width*, fixed_branch_accuracy "
-    "(end to end through strip / replace / nas_sscanf, |field-x| <= 1/2 10^-p), fixed_precision_maximal, "
-    "sci_width_accuracy + sci_width + sci_consts_ok for _format_scientific8/16 and format_double16 (two-stage "
-    "bound (1/2 10^-P + 1/2 10^-q) 10^E), small_branch_pos, small_branch_neg (incl. the double below the literal "
-    "5e-7 / 5e-15 where float(field1) == float('-0.') is false), last_branches, table_rows_ok, "
-    "carry_guard_sound; cards: card_roundtrip_small / card_roundtrip_large (any number of continuation lines, "
-    "blank padding, trailing blanks, the * in column 73, the even-line padding), card_roundtrip_comma (lines of "
-    "any length) and card_fixed_comma_agree, int/blank/str field round trips, card_fields_ok.  Still partial: "
-    "(1) format_float_total states width, grammar and read-back; the accuracy bounds are per branch and are not "
-    "re-assembled into one statement over the dispatch; (2) that the mixed branch picks the more precise "
-    "alternative (float(field1) == float(field2)) is not proved - each alternative has its own proved bound; "
+    "format_float_accuracy - format_float8/16 through the if-chain dispatch: exactly W characters, a field of the "
+    "grammar, read back as a real, and |field - x| <= formatBound, the explicit piecewise bound (fixed rows "
+    "1/2 10^-p, scientific (1/2 10^-P + 1/2 10^-q) 10^E, mixed: the bound of the alternative emitted, final "
+    "integers 1/2; format_bound_pieces); mixed_branch_picks (positive chain: the fixed alternative is emitted iff "
+    "N > 0, it fits and both fields read as the same double), mixed_branch_picks_neg (negative chain, exponents "
+    "not ending in 0) and mixed_branch_reads_as_sci (whatever is emitted "
+    "reads back as the same number as the scientific field); best precision: format_float_best_precision (over "
+    "the dispatch: in every fixed-notation branch and in the final integer branches the field returned is a "
+    "nearest W-character field; tables_best_ok by decide on the regenerated tables), per branch "
+    "fixed_branch_best_precision and last_branches_best_precision (no string of the grammar of at most W "
+    "characters, either sign, normalised or not, is closer: slack 0), sci_best_precision (slack 10^(E-q) against "
+    "fields of the other sign, fixed-notation fields and scientific fields whose exponent part is at least as "
+    "long), sci_slack_attained (the slack is sharp) and unnormalised_mantissa_is_closer (12346.+6 beats 1.235+10: "
+    "the formatters are best for the exponent they print, not among all strings); the per-branch theorems of the "
+    "first round; cards: card_roundtrip_small / _large / _comma, card_fixed_comma_agree; the reader with all "
+    "options: rdcards_multi (any matcher, blank, return_var, dtype, keep_name; comments not kept: a file of block "
+    "texts is read block by block), rdcards_multi_files, written_cards_are_blocks, rdcards_assembled, "
+    "rdcards_general_is_rdcards, array_shape (rows x longest card, padded with blank), dict_keys_and_last, "
+    "expandtabs_cells / tab_line_reads_as_fixed (tab stops at 8), fsearch_first_line, wtcard_type_dispatch.  "
+    "Still partial: (1) the choice of the NEGATIVE mixed branch is characterised (mixed_branch_picks_neg) only "
+    "for printed exponents whose last digit is not 0: the code's field.strip(' 0-') also eats the last zero of "
+    "an exponent like -10 and then compares with another number, so for 1e-10 <= |x| < 1e-9 in format_float16 "
+    "which alternative is emitted is tied by the exact correspondence only (text, width, read-back and the bound "
+    "of each alternative are proved there too); (2) best precision is assembled over "
+    "the dispatch for the fixed-notation and final integer branches only (format_float_best_precision: slack 0 "
+    "against every string); in the scientific branches it is per branch (sci_best_precision, with the slack and "
+    "the competitor class), and for the fixed alternative of a mixed branch it is only known that it reads back "
+    "as the scientific field does (mixed_branch_reads_as_sci, positive chain); "
     "(3) a comma-form writer does not exist in pyyeti: card_roundtrip_comma is about the specification text "
-    "commaText; (4) card-name matching is proved for one-card files (multi-card files, name prefixes and foreign "
-    "lines are correspondence only); card_line_roundtrip_partial is kept for the record (superseded by "
-    "card_roundtrip_small)"
+    "commaText; (4) in rdcards_assembled the foreign blocks between the cards must contribute no card of the "
+    "name: rdcards_foreign_block proves that for every block none of whose lines starts with the name, but that "
+    "the lines of a written card of ANOTHER name are such a block is not proved in general (tied by "
+    "correspondence); for keep_comments=True "
+    "kept_comments_complete proves that every comment line is kept once and in order, the exact place of a "
+    "comment among the cards (in front of the next matching card) is modelled and tied only; regex matching "
+    "carries no theorem beyond rdcards_multi's 'any matcher'; (5) numpy.float32 arguments equal to the float32 rounding of a branch "
+    "literal are outside the model (NumPy compares in float32 there); `rowsep` does not exist in this code base; "
+    "card_line_roundtrip_partial is kept for the record (superseded by card_roundtrip_small)"
 )
 MANIFEST = {
     "level_text": "proof",
-    "level_note": "Lean theorems per branch (exact text, width, read-back, accuracy over all fractions) and for "
-                  "cards (8/16/comma forms, any number of lines), format_float8/16 as a whole for width, grammar and "
-                  "read-back; multi-card files and the choice between the two alternatives of the mixed "
-                  "branch are tied by exact correspondence",
+    "level_note": "Lean theorems: format_float8/16 as a whole (width, grammar, read-back, explicit piecewise accuracy "
+                  "bound), best precision per branch with the sharp slack and the counterexample for un-normalised "
+                  "mantissas, the positive mixed branch's choice; cards in 8/16/comma forms with any number of lines; "
+                  "the generic reader with all options on multi-card files (block-by-block reading, array shapes, "
+                  "dictionary keys, kept comments, tabs, fsearch).  Tied by exact correspondence only: the choice of the "
+                  "negative mixed branch in the decade 1e-10..1e-9 of format_float16, the place of kept comments, regular-expression names (matcher verdicts from Python's re), NumPy's "
+                  "dtype conversions, numpy.float32 arguments",
     "technique": "Lean 4 model + ast translator (NasFloatTables) + differential correspondence",
 }
 
@@ -536,6 +589,235 @@ def _card_with_comma_first_line(ctx, bulk, L):
     return None
 
 
+# ------------------------------------------------------------------------------------ reader options, files
+
+_NODATA = object()
+_DEFAULT = object()
+
+
+def _canon_np(v):
+    import numpy as np
+
+    if isinstance(v, (np.floating, float)):
+        return "f%d" % _bits(float(v))
+    if isinstance(v, (np.integer, int)) and not isinstance(v, (bool, np.bool_)):
+        return "i%d" % int(v)
+    return "?" + type(v).__name__
+
+
+def _canon_result(r):
+    """canonical text of what rdcards returns (the format of the driver's `rdx` reply)"""
+    import numpy as np
+
+    if r is _NODATA:
+        return "nodata"
+    if isinstance(r, list):
+        out = []
+        for it in r:
+            if isinstance(it, str):
+                out.append("m" + it.encode("latin-1").hex())
+            else:
+                out.append("c" + ",".join(_canon_val(v) for v in it))
+        return "L:" + ";".join(out)
+    if isinstance(r, np.ndarray):
+        if r.ndim != 2:
+            return "?ndim%d" % r.ndim
+        return "A:%dx%d:" % r.shape + ";".join(",".join(_canon_np(v) for v in row) for row in r)
+    if isinstance(r, dict):
+        return "D:" + ";".join("%s=%s" % (_canon_val(k), ",".join(_canon_np(v) for v in val)) for k, val in r.items())
+    return "?" + type(r).__name__
+
+
+def _blank_tok(b):
+    if b is _DEFAULT or b is None:
+        return "-"
+    if isinstance(b, str):
+        return "s" + _hex(b)
+    if isinstance(b, int):
+        return "i%d" % b
+    return "f%d" % _bits(b)
+
+
+def _rdx_real(bulk, text, name, rv, dt, keep, keepc, blank, regex):
+    import warnings
+
+    kw = dict(return_var=rv, dtype=(float if dt == "f" else int), keep_name=bool(keep),
+              keep_comments=bool(keepc), no_data_return=_NODATA, regex=bool(regex))
+    if blank is not _DEFAULT:
+        kw["blank"] = blank
+    with warnings.catch_warnings():
+        warnings.simplefilter("ignore")
+        try:
+            r = bulk.rdcards(io.StringIO(text), name, **kw)
+        except Exception as e:  # noqa: BLE001
+            return "exc:" + type(e).__name__
+    return _canon_result(r)
+
+
+def _rdx_req(text, name, rv, dt, keep, keepc, blank, regex):
+    if regex:
+        import re
+
+        prog = re.compile(name, re.IGNORECASE)
+        bits = "".join("1" if prog.match(line.expandtabs()) else "0" for line in io.StringIO(text))
+        mt = "b" + bits
+    else:
+        mt = "p" + _hex(name)
+    return "rdx %s %s %d %d %s %s %s" % (rv[0], dt, keep, keepc, _blank_tok(blank), mt, _hex(text))
+
+
+_SAFE_NOISE = ["$ comment line\n", "$\n", "$ a comment, with commas\n", "\n", "BEGIN BULK\n", "ENDDATA\n",
+               "OTHER          1       2\n", "OTHER,1,2\n", "PARAM   POST    -1      $ inline comment\n",
+               "$ tab\there\n"]
+_UNSAFE_NOISE = [" stray  5\n", "+       9       8\n", "*       1.5\n", ",7,8\n", "   \n", "\t3\n",
+                 "+,4,5\n", "*\n"]
+
+
+def _tab_text(card, text):
+    """the small-field card `text` with every run of blanks that ends a field replaced by a tab
+    (a field of exactly 8 characters is followed by nothing); None when a field would be ambiguous"""
+    lines = text.split("\n")[:-1]
+    out = []
+    for ln in lines:
+        cells = [ln[i:i + 8] for i in range(0, len(ln), 8)]
+        t = ""
+        for k, c in enumerate(cells):
+            c2 = c.strip()
+            if " " in c2 or "\t" in c2:
+                return None
+            last = k == len(cells) - 1
+            if len(c) == 8 and len(c2) == 8:
+                t += c2
+            elif last and len(c) < 8:
+                t += c2
+            else:
+                t += c2 + "\t"
+        out.append(t)
+    return "\n".join(out) + "\n"
+
+
+def _rand_parts(ctx, bulk, pool):
+    """a file assembled from several writers: [{"t": "card", "card", "form", "text"} | {"t": "raw", "text", "safe"}]"""
+    rng = ctx.rng
+    parts = []
+    base = None
+    k = rng.randint(1, 6)
+    for _ in range(k):
+        while rng.random() < 0.35:
+            if rng.random() < 0.75:
+                parts.append({"t": "raw", "text": rng.choice(_SAFE_NOISE), "safe": True})
+            else:
+                parts.append({"t": "raw", "text": rng.choice(_UNSAFE_NOISE), "safe": False})
+        c, t = pool[rng.randrange(len(pool))]
+        if base is None:
+            base = c["name"].rstrip("*")
+        elif rng.random() < 0.5:
+            # several cards of one name (small- and large-field forms), or of names with a common prefix
+            nm = rng.choice([base, base, base[:6] + "X", base[: max(1, len(base) - 1)]])[:7]
+            c = dict(c, name=nm + ("*" if c["writer"] != "wtcard8" else ""))
+            t = _write(bulk, c)
+            if t.startswith("exc:") or t == "value-error":
+                continue
+        r = rng.random()
+        form, text = "fixed", t
+        if r < 0.25:
+            ct = _comma_text(bulk, c, rng)
+            if ct is not None:
+                form, text = "comma", ct
+        elif r < 0.4 and c["writer"] == "wtcard8":
+            tt = _tab_text(c, t)
+            if tt is not None:
+                form, text = "tab", tt
+        parts.append({"t": "card", "card": c, "form": form, "text": text})
+        if rng.random() < 0.12:
+            nm = c["name"]
+            raw = rng.choice(["%s, 1, 'a$b', 3\n" % nm, "%-8s'a$b'   3\n" % nm, "%-8s       1       2$ c\n" % nm,
+                              "%s\t1\t2.5\tXY\n+\t3\n" % nm, "%s,1,2 $ c\n+,3\n" % nm, "%s\n" % nm])
+            parts.append({"t": "raw", "text": raw, "safe": False})
+    while rng.random() < 0.3:
+        parts.append({"t": "raw", "text": rng.choice(_SAFE_NOISE), "safe": True})
+    return parts
+
+
+def _parts_text(parts):
+    return "".join(p["text"] for p in parts)
+
+
+def _pick_name(rng, parts):
+    names = [p["card"]["name"] for p in parts if p["t"] == "card"]
+    nm = rng.choice(names)
+    r = rng.random()
+    if r < 0.25:
+        nm = nm[: rng.randint(1, max(1, len(nm) - 1))]
+    elif r < 0.35:
+        nm = nm.rstrip("*")
+    elif r < 0.4:
+        nm = "NOTHING"
+    if rng.random() < 0.3:
+        nm = nm.lower()
+    return nm
+
+
+def _regex_for(rng, parts):
+    import re
+
+    names = sorted({p["card"]["name"] for p in parts if p["t"] == "card"})
+    a = rng.choice(names).rstrip("*")
+    b = rng.choice(names).rstrip("*")
+    return rng.choice([re.escape(a) + r"\*?(,\s*|\s+)", "(%s|%s)" % (re.escape(a), re.escape(b)),
+                       re.escape(a[:1]) + r"\w*\*?\s", r"[a-m]\w*", re.escape(a) + r"\b", r".*5",
+                       re.escape(a.lower()) + r"$", r"\s*\S+\s+\d"])
+
+
+def _np_variant(rng, f):
+    """(python object for the writer, token for the model) of a field given with a numpy / odd type"""
+    import numpy as np
+
+    if f[0] == "b":
+        return rng.choice([("", "b"), (np.str_(""), "b")])
+    if f[0] == "s":
+        return rng.choice([(f[1], _tok(f)), (np.str_(f[1]), _tok(f))])
+    if f[0] == "i":
+        n = f[1]
+        opts = [(n, _tok(f))]
+        if -2 ** 31 <= n < 2 ** 31:
+            opts.append((np.int32(n), _tok(f)))
+        if -2 ** 63 <= n < 2 ** 63:
+            opts.append((np.int64(n), _tok(f)))
+        if 0 <= n < 2 ** 32:
+            opts.append((np.uint32(n), _tok(f)))
+        if 0 <= n < 2 ** 64:
+            opts.append((np.uint64(n), _tok(f)))
+        if -2 ** 15 <= n < 2 ** 15:
+            opts.append((np.int16(n), "x"))
+        if n in (0, 1):
+            opts.append((bool(n), _tok(f)))
+            opts.append((np.bool_(n), "x"))
+        return rng.choice(opts)
+    x = _dbl(f[1])
+    return rng.choice([(x, _tok(f)), (np.float64(x), _tok(f)), (np.array(x), "x"), (np.float16(1.5), "x"),
+                       (None, "x"), (b"ab", "x"), (np.longdouble(x), "x"), ([x], "x"), (Fraction(1, 2), "x"),
+                       (complex(x), "x")])
+
+
+def _f32_bounds(tabs):
+    """the float32 values nearest to a literal of the decade chains: there (and only there) a NumPy
+    float32 argument can take another branch than the same value as a Python float, because NumPy 2
+    compares a float32 scalar with a Python float literal in float32"""
+    import numpy as np
+
+    out = set()
+    for W in (8, 16):
+        (prow, _, _), (nrow, _, _) = tabs[W]
+        for rows in (prow, nrow):
+            for frac, strict, prec, kind, lo in rows:
+                for c in [frac] + ([lo] if lo else []):
+                    v = float(np.float32(float(c)))
+                    out.add(v)
+                    out.add(-v)
+    return out
+
+
 # ------------------------------------------------------------------------------------ correspondence
 
 
@@ -776,6 +1058,180 @@ def correspondence(ctx):
                           "cards:value-error", "rdcards:single", "rdcards:multi", "rdcards:comma"] +
                          ["rdcards:comma:first-line-%d" % L for L in range(72, 81)] +
                          ["rdcards:comma:first-line-73..80", "rdcards:comma:first-line->80"])
+    _corr_extension(ctx, bulk, tabs, vals, ok, floats)
+
+
+def _corr_extension(ctx, bulk, tabs, vals, ok, floats):
+    """streams of the extension: expandtabs, fsearch, the writers' type dispatch and the formatters on
+    NumPy / int arguments, rdcards with all its options on files assembled from several writers"""
+    import numpy as np
+    import time as _time
+
+    rng = ctx.rng
+    t_ext = _time.time()
+
+    # --- stream `tabs`: str.expandtabs() ---------------------------------------------------
+    strs = ["", "\t", "a\tb", "\t\t", "abcdefgh\tx", "abcdefg\tx", "ab\ncd\te\r\tf", "\n\t", "GRID\t1\t2.5\tXY\n+\t3\n"]
+    alphabet = "ab1 .,$*+-\t\t\t\n\rXY"
+    for _ in range(ctx.pick(400, 4000)):
+        strs.append("".join(rng.choice(alphabet) for _ in range(rng.randint(0, 40))))
+    rep = _ask(ctx, ["tabs " + _hex(t) for t in strs])
+    for t, r in zip(strs, rep):
+        got = t.expandtabs()
+        r = _unhex(r) if r not in ("bad-op",) else r
+        ctx.case(("tabs", t), nontrivial=("\t" in t), branch="tabs:" + ("tab" if "\t" in t else "plain"))
+        if got != r:
+            ctx.disagree("tabs", {"kind": "tabs", "string": t}, got, r)
+
+    # --- stream `fsearch` --------------------------------------------------------------------
+    req, want = [], []
+    for _ in range(ctx.pick(300, 3000)):
+        nl = rng.randint(0, 6)
+        text = "".join("".join(rng.choice("abAB 1.\t") for _ in range(rng.randint(0, 12))) + "\n" for _ in range(nl))
+        if rng.random() < 0.2:
+            text += "ab1"  # last line without newline
+        pat = "".join(rng.choice("abAB 1.") for _ in range(rng.randint(0, 3)))
+        f = io.StringIO(text)
+        line, pos = bulk.fsearch(f, pat)
+        want.append("none" if line is None else "%s %d" % (_hex(line), pos))
+        req.append("fs %s %s" % (_hex(pat), _hex(text)))
+        ctx.case(("fs", pat, text), branch="fsearch:" + ("none" if line is None else "found"))
+    rep = _ask(ctx, req)
+    for q, w, r in zip(req, want, rep):
+        if w != r:
+            ctx.disagree("fsearch", {"kind": "fsearch", "request": q}, w, r)
+
+    # --- stream `format-dtype`: the formatters on float32 / integer arguments -------------------
+    f32b = _f32_bounds(tabs)
+    sub = [vals[i][0] for i in range(0, len(vals), max(1, len(vals) // ctx.pick(4000, 40000)))]
+    args = []
+    for x in sub:
+        with np.errstate(over="ignore"):
+            v32 = np.float32(x)
+        if np.isfinite(v32):
+            if float(v32) in f32b:
+                ctx.skip("float32 argument equal to the float32 rounding of a branch literal (NumPy compares in float32)")
+            else:
+                args.append((v32, float(v32), "float32"))
+        if abs(x) < 2 ** 53 and x == int(x):
+            args.append((int(x), float(int(x)), "int"))
+            if abs(x) < 2 ** 31:
+                args.append((np.int32(int(x)), float(int(x)), "np.int32"))
+            args.append((np.int64(int(x)), float(int(x)), "np.int64"))
+    for v in sorted(f32b):
+        for w in (np.nextafter(np.float32(v), np.float32(np.inf)), np.nextafter(np.float32(v), np.float32(-np.inf))):
+            if float(w) not in f32b:
+                args.append((w, float(w), "float32"))
+    for n in (0, 1, -1, 7, 10 ** 7, -10 ** 6, 9999999, 10 ** 15, 2 ** 53 - 1, -(2 ** 53 - 1), True, False):
+        args.append((n, float(n), "int"))
+    rep = _ask(ctx, ["all %d" % _bits(xf) for _, xf, _ in args])
+    for (v, xf, kind), r in zip(args, rep):
+        got = _fmt3(bulk, v)
+        ctx.case(("fmtx", kind, _bits(xf)), nontrivial=(xf != 0.0), branch="format-dtype:" + kind)
+        if got != r:
+            ctx.disagree("format-dtype", {"kind": "number", "bits": _bits(xf), "repr": repr(v), "dtype": kind}, got, r)
+    ctx.require_branches(["format-dtype:float32", "format-dtype:int", "format-dtype:np.int64"])
+
+    # --- stream `cards-dtype`: the writers' type dispatch ---------------------------------------
+    req, objs = [], []
+    wname = {"wtcard8": "wtx8", "wtcard16": "wtx16", "wtcard16d": "wtx16d"}
+    for c, _ in ok[: ctx.pick(700, 6000)]:
+        if not c["fields"]:
+            continue
+        py, toks = [c["name"]], []
+        allow_bad = rng.random() < 0.3
+        for f in c["fields"]:
+            if rng.random() < 0.45:
+                o, t = _np_variant(rng, f)
+                if t == "x" and not allow_bad:
+                    o, t = _py_fields({"name": "", "fields": [f]})[1], _tok(f)
+            else:
+                o, t = _py_fields({"name": "", "fields": [f]})[1], _tok(f)
+            py.append(o)
+            toks.append(t)
+        if rng.random() < 0.08:
+            # a string longer than the field: written as it is (the line is no longer aligned)
+            W = 8 if c["writer"] == "wtcard8" else 16
+            long = "".join(rng.choice(_LET) for _ in range(W + rng.randint(1, 6)))
+            k = rng.randrange(len(toks))
+            py[k + 1], toks[k] = long, "s" + long.encode("latin-1").hex()
+            ctx.count("cards-dtype:long-string")
+        if rng.random() < 0.1:
+            py = tuple(py)
+        elif rng.random() < 0.05 and all(isinstance(o, str) for o in py):
+            py = np.array(py)
+        req.append("%s %s %s" % (wname[c["writer"]], _hex(c["name"]), " ".join(toks)))
+        objs.append((c, py))
+    for w, nm in (("wtcard8", "TOOLONGNAME"), ("wtcard16", "NOSTAR"), ("wtcard16d", "TOOLONGN*")):
+        req.append("%s %s i1 x" % (wname[w], _hex(nm)))  # the name checks come before the field types
+        objs.append(({"writer": w, "name": nm, "fields": []}, [nm, 1, None]))
+    rep = _ask(ctx, req)
+    for (c, py), q, r in zip(objs, req, rep):
+        f = io.StringIO()
+        try:
+            getattr(bulk, c["writer"])(f, py)
+            got = f.getvalue()
+        except ValueError:
+            got = "value-error"
+        except TypeError:
+            got = "type-error"
+        except Exception as e:  # noqa: BLE001
+            got = "exc:" + type(e).__name__
+        model = r if r in ("value-error", "type-error", "bad-op") else _unhex(r)
+        ctx.case(("wtx", q), branch="cards-dtype:" + (got if got in ("value-error", "type-error") else "text"))
+        if got != model:
+            ctx.disagree("cards-dtype", {"kind": "wtx", "request": q, "fields": repr(py)[:400]}, got, model)
+    ctx.require_branches(["cards-dtype:text", "cards-dtype:type-error", "cards-dtype:value-error",
+                          "cards-dtype:long-string"])
+
+    # --- stream `rdcards-options`: files assembled from several writers, every option -----------
+    small = [x for x in floats if abs(x) < 1e15]
+    pool_small = [(c, t) for c, t in ((c, _write(bulk, c)) for c in
+                                       (_rand_card(ctx, bulk, small) for _ in range(ctx.pick(150, 1200))))
+                  if not (t.startswith("exc:") or t == "value-error")]
+    req, want, inputs = [], [], []
+    for i in range(ctx.pick(900, 9000)):
+        intdt = rng.random() < 0.25
+        parts = _rand_parts(ctx, bulk, pool_small if intdt else ok)
+        text = _parts_text(parts)
+        regex = rng.random() < 0.15
+        name = _regex_for(rng, parts) if regex else _pick_name(rng, parts)
+        rv = rng.choice(["list", "list", "array", "array", "dict"])
+        dt = "i" if intdt else "f"
+        keep, keepc = rng.randint(0, 1), (1 if rng.random() < 0.3 else 0)
+        if rv == "list":
+            blank = rng.choice([_DEFAULT, _DEFAULT, None, "", "X", 0, -1, 1.5])
+        else:
+            blank = rng.choice([_DEFAULT, _DEFAULT, None, 0, -1, 7, 1.5, -2.5] + (["x"] if rng.random() < 0.1 else []))
+        q = _rdx_req(text, name, rv, dt, keep, keepc, blank, regex)
+        w = _rdx_real(bulk, text, name, rv, dt, keep, keepc, blank, regex)
+        req.append(q)
+        want.append(w)
+        inputs.append({"kind": "rdx", "parts": parts, "name": name, "return_var": rv, "dtype": dt, "keep_name": keep,
+                       "keep_comments": keepc, "blank": None if blank is _DEFAULT else blank, "regex": regex,
+                       "default_blank": blank is _DEFAULT})
+        res = "exc" if w.startswith("exc:") else w[:1]
+        ctx.case(("rdx", q), branch="rdcards-options:%s:%s" % (rv, res))
+        ctx.count("rdcards-options:" + ("regex" if regex else "prefix"))
+        if keepc and rv == "list" and ";m" in w or w.startswith("L:m"):
+            ctx.count("rdcards-options:comments-kept")
+        if any(p["t"] == "card" and p["form"] == "tab" for p in parts) or "\t" in text:
+            ctx.count("rdcards-options:tabs")
+        if dt == "i" and rv != "list":
+            ctx.count("rdcards-options:dtype-int")
+    rep = _ask(ctx, req)
+    for q, w, r, inp in zip(req, want, rep, inputs):
+        if w != r:
+            ctx.disagree("rdcards-options", inp, w, r)
+    if inputs:
+        ctx.sample({"rdcards": {k: v for k, v in inputs[0].items() if k != "parts"}, "text": _parts_text(inputs[0]["parts"])[:300],
+                    "result": want[0][:200]})
+    ctx.extra["extension_streams_seconds"] = round(_time.time() - t_ext, 1)
+    ctx.require_branches(["rdcards-options:list:L", "rdcards-options:list:n", "rdcards-options:array:A",
+                          "rdcards-options:array:n", "rdcards-options:array:exc", "rdcards-options:dict:D",
+                          "rdcards-options:regex", "rdcards-options:prefix", "rdcards-options:comments-kept",
+                          "rdcards-options:tabs", "rdcards-options:dtype-int", "tabs:tab", "fsearch:found",
+                          "fsearch:none"])
 
 
 # ------------------------------------------------------------------------------------ oracle
@@ -832,6 +1288,18 @@ def _number_failures(bulk, x, which=("f8", "f16", "d16", "s8", "s16")):
             if v != 0.0:
                 out.append(("%s-zero" % fname.strip("_").replace("_", "-"), "zero is not written as zero", inp, s, "0."))
             continue
+        if key in ("f8", "f16") and (0.0 < x < 0.001 or -0.01 < x < 0.0):
+            # model-free form of mixed_branch_reads_as_sci: below the fixed-notation rows the field reads back as
+            # the same double as the scientific field, whichever alternative is emitted
+            try:
+                vs = bulk.nas_sscanf(getattr(bulk, "_format_scientific%d" % W)(x))
+            except Exception as e:  # noqa: BLE001
+                vs = repr(e)
+            if not (isinstance(vs, float) and vs == v):
+                out.append(("%s-small-magnitude-reads-differently-from-scientific-field" % fname.replace("_", "-"),
+                            "below the fixed-notation rows the field does not read back as the scientific field does",
+                            inp, [s, repr(v)], repr(vs)))
+                continue
         if not (1e-300 <= abs(x) <= 1e300):
             continue
         unit = _best_unit(x, W, dstyle)
@@ -958,6 +1426,167 @@ def _card_failures(bulk, card):
     return out
 
 
+FAM_MULTI = "rdcards-multi-card-file-differs-from-per-card-reads"
+FAM_ARRAY = "rdcards-array-shape-or-blank-padding"
+FAM_DICT = "rdcards-dict-key-or-value"
+FAM_TABS = "rdcards-tab-expansion-differs-from-fixed-columns"
+FAM_NPFIELD = "wtcard-numpy-scalar-field-differs-from-python-scalar"
+FAM_NODATA = "rdcards-no-data-return"
+FAM_PREFIX = "rdcards-name-prefix-or-case-not-selected"
+FAM_COMMENTS = "rdcards-keep-comments"
+
+
+_ORACLE_STATS = {}
+
+
+def _stat(k):
+    _ORACLE_STATS[k] = _ORACLE_STATS.get(k, 0) + 1
+
+
+def _rd(bulk, text, name, **kw):
+    import warnings
+
+    with warnings.catch_warnings():
+        warnings.simplefilter("ignore")
+        return bulk.rdcards(io.StringIO(text), name, **kw)
+
+
+def _same_list(a, b):
+    return len(a) == len(b) and all(_same(u, v) for u, v in zip(a, b))
+
+
+def _file_failures(bulk, parts, name):
+    """model-free statement of `rdcards_multi` on a file assembled from several writers: reading the
+    file by `name` gives, in file order, what reading each matching card alone gives; the array form
+    is the list form with strings and blanks replaced by `blank` and short rows padded with it; the
+    dictionary is keyed by the first value, the last card of a key wins.  Only for files whose
+    foreign lines cannot be taken for a continuation line and do not match `name`."""
+    import numpy as np
+
+    out = []
+    low = name.lower()
+    for p_ in parts:
+        if p_["t"] == "raw" and (not p_["safe"] or p_["text"].lower().startswith(low)):
+            _stat("files-skipped-foreign-line-could-continue-or-match")
+            return out
+    text = _parts_text(parts)
+    inp = {"kind": "parts", "parts": parts, "name": name}
+    exp = []
+    try:
+        for p_ in parts:
+            if p_["t"] == "card" and p_["text"].lower().startswith(low):
+                one = _rd(bulk, p_["text"], name, return_var="list", keep_name=True)
+                if one is None or len(one) != 1:
+                    if name != p_["card"]["name"]:
+                        out.append((FAM_PREFIX, "a card whose first line starts with `name` (case-insensitive) is not "
+                                    "selected: `name` is 'the initial part of the string to look for', so the small- "
+                                    "and the large-field form NAME / NAME* are both read by NAME", inp,
+                                    {"card_text": p_["text"][:200], "read": repr(one)[:200]}, "one card"))
+                    return out  # (read by its own name: the single-card oracle _card_failures reports it)
+                exp.append(one[0])
+        got = _rd(bulk, text, name, return_var="list", keep_name=True, no_data_return=_NODATA)
+    except Exception as e:  # noqa: BLE001
+        out.append((FAM_MULTI, "rdcards raises on a file assembled from written cards", inp, repr(e), "the cards"))
+        return out
+    _stat("files-read-%d-matching-cards" % min(len(exp), 3))
+    if not exp:
+        if got is not _NODATA:
+            out.append((FAM_NODATA, "no card of that name, but rdcards does not return no_data_return", inp,
+                        repr(got)[:300], "no_data_return"))
+        return out
+    if got is _NODATA or len(got) != len(exp) or not all(_same_list(a, b) for a, b in zip(got, exp)):
+        out.append((FAM_MULTI, "reading the file by name differs from the per-card reads in file order", inp,
+                    {"read": repr(got)[:600]}, {"per_card": repr(exp)[:600]}))
+        return out
+    # keep_comments=True (safe files have their comments between the blocks only): every line that starts with `$`
+    # is kept, once and in order, and the cards are what they are without the comments
+    try:
+        gotc = _rd(bulk, text, name, return_var="list", keep_name=True, keep_comments=True)
+    except Exception as e:  # noqa: BLE001
+        out.append((FAM_COMMENTS, "rdcards(keep_comments=True) raises", inp, repr(e), "cards and comments"))
+        return out
+    wantc = [ln for ln in io.StringIO(text) if ln.startswith("$")]
+    if [it for it in gotc if isinstance(it, str)] != wantc or not (
+            len([it for it in gotc if not isinstance(it, str)]) == len(exp)
+            and all(_same_list(a, b) for a, b in zip([it for it in gotc if not isinstance(it, str)], exp))):
+        out.append((FAM_COMMENTS, "keep_comments=True loses, repeats or reorders a comment line, or changes a card", inp,
+                    {"read": repr(gotc)[:600]}, {"comments": wantc[:20], "cards": repr(exp)[:400]}))
+        return out
+    _stat("files-kept-comments-checked")
+    lst = [c[1:] for c in exp]
+    if any(len(c) == 0 for c in lst):
+        return out  # `val[0]` of a card without fields: outside the quantifier (cards of 1..60 fields)
+    _stat("files-array-and-dict-checked")
+    blank = -7
+    rows = [[float(v) if isinstance(v, (int, float)) and not isinstance(v, bool) else float(blank) for v in c] for c in lst]
+    mx = max(len(r) for r in rows)
+    try:
+        arr = _rd(bulk, text, name, blank=blank)
+    except Exception as e:  # noqa: BLE001
+        out.append((FAM_ARRAY, "rdcards(return_var='array') raises", inp, repr(e), "an array"))
+        return out
+    want = np.full((len(rows), mx), float(blank))
+    for i, r in enumerate(rows):
+        want[i, : len(r)] = r
+    if not (isinstance(arr, np.ndarray) and arr.shape == want.shape and arr.dtype == np.float64
+            and np.array_equal(arr.view(np.uint64), want.view(np.uint64))):
+        out.append((FAM_ARRAY, "the array form is not the list form padded with `blank`", inp,
+                    {"array": repr(arr)[:600]}, {"expected": repr(want)[:600]}))
+        return out
+    try:
+        dct = _rd(bulk, text, name, blank=blank, return_var="dict")
+    except Exception as e:  # noqa: BLE001
+        out.append((FAM_DICT, "rdcards(return_var='dict') raises", inp, repr(e), "a dictionary"))
+        return out
+    wantd = {}
+    for c, r in zip(lst, rows):
+        k = c[0] if isinstance(c[0], (int, float)) and not isinstance(c[0], bool) else blank
+        if k in wantd:
+            _stat("files-dict-repeated-key")
+        wantd[k] = r
+    okd = isinstance(dct, dict) and list(dct.keys()) == list(wantd.keys()) and all(
+        isinstance(dct[k], np.ndarray) and dct[k].dtype == np.float64 and dct[k].shape == (len(wantd[k]),)
+        and np.array_equal(dct[k].view(np.uint64), np.array(wantd[k]).view(np.uint64)) for k in wantd)
+    if not okd:
+        out.append((FAM_DICT, "the dictionary form is not keyed by the first value / does not hold the last card of a key",
+                    inp, {"dict": repr(dct)[:600]}, {"expected": repr(wantd)[:600]}))
+    return out
+
+
+def _tab_failures(bulk, card):
+    """a small-field card written with tabs between the fields reads like the fixed-column card"""
+    out = []
+    text = _write(bulk, card)
+    if text == "value-error" or text.startswith("exc:") or card["writer"] != "wtcard8":
+        return out
+    tt = _tab_text(card, text)
+    if tt is None or "\t" not in tt:
+        return out
+    _stat("tabbed-cards-read")
+    inp = {"kind": "tabcard", "card": card}
+    try:
+        a = _rd(bulk, text, card["name"], return_var="list", keep_name=True)
+        b = _rd(bulk, tt, card["name"], return_var="list", keep_name=True)
+    except Exception as e:  # noqa: BLE001
+        out.append((FAM_TABS, "rdcards raises on a tabbed card", inp, repr(e), "the fields"))
+        return out
+    if not (a and b and len(a) == len(b) == 1 and _same_list(_rstrip_blanks(a[0]), _rstrip_blanks(b[0]))):
+        out.append((FAM_TABS, "a card with tabs between its fields reads differently from the fixed-column card", inp,
+                    {"tab_text": tt, "read": repr(b)[:400]}, {"fixed_read": repr(a)[:400]}))
+    return out
+
+
+def _npfield_failures(bulk, card):
+    """the writers treat NumPy scalars of the supported types like the Python scalars"""
+    out = []
+    a = _write(bulk, card)
+    b = _write(bulk, card, np_types=True)
+    if a != b:
+        out.append((FAM_NPFIELD, "a card with numpy.float64 / int64 / str_ fields is written differently",
+                    {"kind": "npcard", "card": card}, b[:400], a[:400]))
+    return out
+
+
 def _report(ctx, fails):
     seen = ctx.extra.setdefault("oracle_failures_by_family", {})
     for fam, what, inp, obs, reqd in fails:
@@ -975,6 +1604,12 @@ def search(ctx, hints):
             _report(ctx, _number_failures(bulk, _dbl(i["bits"])))
         elif i.get("kind") == "card":
             _report(ctx, _card_failures(bulk, i["card"]))
+        elif i.get("kind") == "rdx":
+            _report(ctx, _file_failures(bulk, i["parts"], i["name"] if not i.get("regex") else "NOTHING"))
+            for p_ in i["parts"]:
+                if p_["t"] == "card":
+                    _report(ctx, _file_failures(bulk, i["parts"], p_["card"]["name"]))
+                    _report(ctx, _tab_failures(bulk, p_["card"]))
     # 2. base stream: numbers
     vals = _values(ctx, ctx.pick(12, 300), 2)
     n = 0
@@ -1012,6 +1647,48 @@ def search(ctx, hints):
                        for f in c["fields"]]
         _report(ctx, _card_failures(bulk, c))
         ctx.count("oracle-cards")
+    _search_extension(ctx, bulk, floats)
+
+
+def _search_extension(ctx, bulk, floats):
+    """base streams of the extension's oracle: assembled files, tabbed cards, numpy-typed fields"""
+    rng = ctx.rng
+    pool = []
+    for _ in range(ctx.pick(250, 2500)):
+        c = _rand_card(ctx, bulk, floats)
+        W = 8 if c["writer"] == "wtcard8" else 16
+        c["fields"] = [f if not (f[0] == "i" and len(str(f[1])) > W) else ["i", f[1] % 10 ** (W - 1)]
+                       for f in c["fields"]]
+        t = _write(bulk, c)
+        if not (t.startswith("exc:") or t == "value-error"):
+            pool.append((c, t))
+        _report(ctx, _tab_failures(bulk, c))
+        _report(ctx, _npfield_failures(bulk, c))
+        ctx.count("oracle-tab-and-numpy-cards")
+    # fixed inputs: two names with a common prefix, small- and large-field forms of one name, a repeated key
+    def card(w, name, fields):
+        return {"writer": w, "name": name, "fields": fields}
+
+    g1 = card("wtcard8", "GRID", [["i", 1], ["b"], ["f", _bits(1.5)], ["f", _bits(-2.25)], ["s", "AB"]])
+    g2 = card("wtcard16", "GRID*", [["i", 2], ["b"], ["f", _bits(1e-5)]] + [["i", 7]] * 7)
+    g3 = card("wtcard16d", "GRID*", [["i", 1], ["i", 5], ["f", _bits(3.0)]])
+    c1 = card("wtcard8", "GRIDX", [["i", 9]] * 11)
+    fixed = [[g1, g2, c1, g3], [c1, g1], [g3, g2, g1]]
+    for cs in fixed:
+        parts = []
+        for c in cs:
+            parts.append({"t": "raw", "text": "$ comment\n", "safe": True})
+            parts.append({"t": "card", "card": c, "form": "fixed", "text": _write(bulk, c)})
+            parts.append({"t": "raw", "text": "ENDDATA\n", "safe": True})
+        for nm in ("GRID", "grid", "GRID*", "GRIDX", "G", "NOTHING"):
+            _report(ctx, _file_failures(bulk, parts, nm))
+            ctx.count("oracle-files")
+    for _ in range(ctx.pick(500, 5000)):
+        parts = [p_ for p_ in _rand_parts(ctx, bulk, pool) if p_["t"] == "card" or p_["safe"]]
+        for nm in {_pick_name(rng, parts), _pick_name(rng, parts)}:
+            _report(ctx, _file_failures(bulk, parts, nm))
+            ctx.count("oracle-files")
+    ctx.extra["oracle_extension"] = dict(_ORACLE_STATS)
 
 
 def replay(ctx, data):
@@ -1024,6 +1701,12 @@ def replay(ctx, data):
         fails = _number_failures(bulk, _dbl(i["bits"]), which=(i.get("fmt"),) if i.get("fmt") in _FMT else tuple(_FMT))
     elif i.get("kind") == "card":
         fails = _card_failures(bulk, i["card"])
+    elif i.get("kind") == "parts":
+        fails = _file_failures(bulk, i["parts"], i["name"])
+    elif i.get("kind") == "tabcard":
+        fails = _tab_failures(bulk, i["card"])
+    elif i.get("kind") == "npcard":
+        fails = _npfield_failures(bulk, i["card"])
     else:
         return None
     if not fails:
